@@ -28,6 +28,28 @@ type vcase struct {
 	URL     string `json:"url"`     // keep | empty | tapdance | other
 	Fields  []int  `json:"fields"`
 	NilSrc  bool   `json:"nilsrc"`
+	// protobuf codec
+	Pb  *vpb   `json:"pb"`
+	Unk string `json:"unk"` // raw unknown fields to attach before marshalling
+}
+
+// typed view of the transport-parameter messages; nil pointers = field absent
+type vaddr struct {
+	IP   *string `json:"ip"`
+	Port *uint32 `json:"port"`
+	Unk  string  `json:"unk"`
+}
+type vpb struct {
+	Rand      *bool   `json:"rand"`
+	ID        *int32  `json:"id"`
+	Prefix    *string `json:"prefix"`
+	Flush     *int32  `json:"flush"`
+	Src4      *vaddr  `json:"src4"`
+	Src6      *vaddr  `json:"src6"`
+	Unordered *bool   `json:"unordered"`
+	URL       string  `json:"url"`
+	Value     string  `json:"value"`
+	Unk       string  `json:"unk"`
 }
 type vres struct {
 	Ok     bool   `json:"ok"`
@@ -41,6 +63,85 @@ type vres struct {
 	Fields []int  `json:"fields"`
 	URL    string `json:"url"`
 	Panic  string `json:"panic"`
+	Pb     *vpb   `json:"pb"`
+}
+
+func unhexp(s *string) []byte {
+	if s == nil {
+		return nil
+	}
+	b, _ := hex.DecodeString(*s)
+	if b == nil {
+		b = []byte{}
+	}
+	return b
+}
+func hexp(b []byte) *string {
+	if b == nil {
+		return nil
+	}
+	s := hex.EncodeToString(b)
+	return &s
+}
+func toAddr(a *vaddr) *pb.Addr {
+	if a == nil {
+		return nil
+	}
+	m := &pb.Addr{IP: unhexp(a.IP), Port: a.Port}
+	u, _ := hex.DecodeString(a.Unk)
+	m.ProtoReflect().SetUnknown(u)
+	return m
+}
+func fromAddr(m *pb.Addr) *vaddr {
+	if m == nil {
+		return nil
+	}
+	return &vaddr{IP: hexp(m.IP), Port: m.Port, Unk: hex.EncodeToString(m.ProtoReflect().GetUnknown())}
+}
+func pbNew(kind string) proto.Message {
+	switch kind {
+	case "generic":
+		return &pb.GenericTransportParams{}
+	case "prefix":
+		return &pb.PrefixTransportParams{}
+	case "dtls":
+		return &pb.DTLSTransportParams{}
+	case "any":
+		return &anypb.Any{}
+	}
+	return nil
+}
+func pbBuild(kind string, v *vpb) proto.Message {
+	var m proto.Message
+	switch kind {
+	case "generic":
+		m = &pb.GenericTransportParams{RandomizeDstPort: v.Rand}
+	case "prefix":
+		m = &pb.PrefixTransportParams{PrefixId: v.ID, Prefix: unhexp(v.Prefix), CustomFlushPolicy: v.Flush, RandomizeDstPort: v.Rand}
+	case "dtls":
+		m = &pb.DTLSTransportParams{SrcAddr4: toAddr(v.Src4), SrcAddr6: toAddr(v.Src6), RandomizeDstPort: v.Rand, Unordered: v.Unordered}
+	case "any":
+		u, _ := hex.DecodeString(v.URL)
+		val, _ := hex.DecodeString(v.Value)
+		m = &anypb.Any{TypeUrl: string(u), Value: val}
+	}
+	u, _ := hex.DecodeString(v.Unk)
+	m.ProtoReflect().SetUnknown(u)
+	return m
+}
+func pbView(m proto.Message) *vpb {
+	v := &vpb{Unk: hex.EncodeToString(m.ProtoReflect().GetUnknown())}
+	switch x := m.(type) {
+	case *pb.GenericTransportParams:
+		v.Rand = x.RandomizeDstPort
+	case *pb.PrefixTransportParams:
+		v.ID, v.Prefix, v.Flush, v.Rand = x.PrefixId, hexp(x.Prefix), x.CustomFlushPolicy, x.RandomizeDstPort
+	case *pb.DTLSTransportParams:
+		v.Src4, v.Src6, v.Rand, v.Unordered = fromAddr(x.SrcAddr4), fromAddr(x.SrcAddr6), x.RandomizeDstPort, x.Unordered
+	case *anypb.Any:
+		v.URL, v.Value = hex.EncodeToString([]byte(x.TypeUrl)), hex.EncodeToString(x.Value)
+	}
+	return v
 }
 
 func obfuscator(v string) Obfuscator {
@@ -193,6 +294,39 @@ func runCase(c vcase) (r vres) {
 		t, err := o.TryReveal(d, priv)
 		r.Ok, r.Err = err == nil, errStr(err)
 		r.Out = hex.EncodeToString(t)
+	case "pb_rt": // proto.Marshal of a typed message, then proto.Unmarshal of the bytes
+		w, err := proto.Marshal(pbBuild(c.Kind, c.Pb))
+		r.Ok, r.Err = err == nil, errStr(err)
+		if err != nil {
+			return
+		}
+		r.Out = hex.EncodeToString(w)
+		m := pbNew(c.Kind)
+		err2 := proto.Unmarshal(w, m)
+		r.Ok2, r.Err2 = err2 == nil, errStr(err2)
+		if err2 == nil {
+			r.Pb = pbView(m)
+		}
+	case "pb_dec": // proto.Unmarshal of arbitrary bytes into a message type
+		m := pbNew(c.Kind)
+		err := proto.Unmarshal(d, m)
+		r.Ok, r.Err = err == nil, errStr(err)
+		if err == nil {
+			r.Pb = pbView(m)
+		}
+	case "anypb_bytes": // what the station does with the Any bytes of a registration: Unmarshal, then UnmarshalAnypbTo
+		src := &anypb.Any{}
+		if err := proto.Unmarshal(d, src); err != nil {
+			r.Err = err.Error()
+			return
+		}
+		r.Ok = true
+		dst := pbNew(c.DstKind)
+		err := UnmarshalAnypbTo(src, dst)
+		r.Ok2, r.Err2 = err == nil, errStr(err)
+		if err == nil {
+			r.Pb = pbView(dst)
+		}
 	case "anypb": // pack without / with the type URL, unpack with UnmarshalAnypbTo
 		var src *anypb.Any
 		if !c.NilSrc {
